@@ -381,6 +381,12 @@ class Soap11(XmlDocument):
             else:
                 out_object = ctx.out_object[0]
 
+                if out_object is None and \
+                                   len(getattr(body_message_class, '_type_info', (0,))) == 0:
+                    # a method that returns nothing: its response message is an
+                    # empty element, which is not declared nillable.
+                    out_object = body_message_class()
+
                 sub_ns = body_message_class.Attributes.sub_ns
                 if sub_ns is None:
                     sub_ns = body_message_class.get_namespace()
